@@ -22,6 +22,9 @@ META = {
     "C08": {"technique": "property-based testing: generated references to every engine-generated output + schema validation oracle",
             "level_text": "Generated-input search: every stage output an expression can name is referenced (whole and by field) under the outcome that produces it; violations are 'bug:' consistency errors, returned data that does not unserialize with the declared output schema, or data whose shape differs from the reference.",
             "level_note": TB + "; stage inputs are validated by the real plugin-side ATP server (an ill-typed input surfaces as a crash/bug error)"},
+    "C18": {"technique": "property-based testing of each built-in function against independent laws and its own declared types",
+            "level_text": "Generated-input search over the declared parameter domains with boundary-value classes; oracle = totality (no panic/death), result validates against the declared or derived output type, determinism, and laws written independently of the implementation.",
+            "level_note": "trusted base: Go's math/strconv/strings/big packages used as reference implementations; the functions are called through CallableFunction.Call in a worker process with a 4 GiB address-space limit"},
 }
 
 NOT_APPLICABLE = []
